@@ -88,4 +88,9 @@ func init() {
 		})
 	extendProp("C03", "newline-symmetry: a valid program is valid with either line ending (seed C03-9: heredoc end test that accepts only LF after the label). num-classify: every path of the scanner's actions that returns T_LNUMBER has found the error of strconv.ParseInt (bit size 0 or 64) on the literal nil; otherwise the literal is a float (seed C03-8: literals shorter than 20 bytes returned as integers unparsed).",
 		[]report.Floor{{Rule: "num-classify", What: "lnumber-blocks", Min: 5}}, func(c *Ctx) { defer c.cleanup(); c.scanRun("newline-symmetry", "num-classify") })
+	const ps = "pred-spec: the transition condition that decides where a one-line comment, a double-quoted string and a backquoted string end is evaluated from source (the look-ahead predicates and what they call interpreted) on every combination of the window bytes data[p-2..p+1], over the exact quotient of the bytes by the constants the code compares them with, and of the distance to the end of the input; the result must equal PHP's rule for that place (seed C08-9: `?>` as the last two bytes of the input no longer ended a `//` comment)."
+	psF := []report.Floor{{Rule: "pred-spec", What: "conditions", Min: 3}, {Rule: "pred-spec", What: "scenarios", Min: 100000}}
+	for _, id := range []string{"C08", "C03", "C02", "C01"} {
+		extendProp(id, ps, psF, func(c *Ctx) { defer c.cleanup(); c.scanRun("pred-spec") })
+	}
 }
